@@ -14,6 +14,9 @@
 (* `wire' is what goes over the wire, `orig' is the ghost original.        *)
 (* Strings are byte strings (ReportStr).  Free text (UT_PRINT, the summary *)
 (* line) is not a service message and does not appear in `out'.            *)
+(* The run options that reach a reporter (colour, verbosity: `opt') are    *)
+(* part of every run; they may change the free text around the messages,   *)
+(* never a message: no action below reads `opt'.                           *)
 (***************************************************************************)
 EXTENDS Naturals, Integers, Sequences, FiniteSets, TLC, ReportStr
 
@@ -22,17 +25,19 @@ CONSTANTS Names,      \* byte strings used as group and test names (ANY byte str
           Msgs,       \* failure messages (the empty message included)
           Texts,      \* texts printed by tests
           LineNos,    \* line numbers
+          Opts,       \* run options [color : BOOLEAN, verb : 0..2] (quiet, verbose, very verbose)
           MaxGroups, MaxTests, MaxFails, MaxPrints     \* bounds on a run (model checking / generation only)
 
 VARIABLES phase,   \* "idle" | "run" | "group" | "test" | "done"
           runIgn,  \* run-ignored mode (-ri): ignored tests run like normal ones
+          opt,     \* run options given to the reporter [color, verb]; no message depends on them
           grp,     \* name of the open (or of the last closed) group; NoGroup before the first
           tst,     \* the open test [name, file, line, ign]
           out,     \* service messages emitted so far
           scan,    \* reader's view of `out': stack of open suite/test items and whether every message so far fitted
           cnt      \* [g, t, f, p]: groups started, tests passed by in this group, failures and prints in this test (bounds only)
 
-vars == <<phase, runIgn, grp, tst, out, scan, cnt>>
+vars == <<phase, runIgn, opt, grp, tst, out, scan, cnt>>
 
 -----------------------------------------------------------------------------
 \* The TeamCity escaping rules: | before ' | [ ], |n for LF, |r for CR
@@ -53,7 +58,7 @@ UnescStep(st, c) ==
     ELSE IF c = Bar THEN [st EXCEPT !.esc = TRUE]
     ELSE IF c \in Special \cup {10, 13} THEN [st EXCEPT !.o = Append(@, Bad)]   \* a raw special ends or breaks the message
     ELSE [st EXCEPT !.o = Append(@, c)]
-Unesc(w) == LET r == Fold(UnescStep, [o |-> <<>>, esc |-> FALSE], w) IN
+Unesc(w) == LET r == ReadFold(UnescStep, [o |-> <<>>, esc |-> FALSE], w) IN
             IF r.esc THEN Append(r.o, Bad) ELSE r.o                            \* dangling bar
 \* a wire value is safe when it decodes completely: no raw ' | [ ] or line break, no dangling or unknown escape
 WireSafe(w) == Bad \notin BytesOf(Unesc(w))
@@ -105,13 +110,15 @@ Silent == UNCHANGED <<out, scan>>
 NoTest  == [name |-> <<Bad>>, file |-> <<>>, line |-> 0, ign |-> FALSE]
 NoGroup == <<Bad>>
 
-Init == /\ phase = "idle" /\ runIgn = FALSE /\ grp = NoGroup /\ tst = NoTest /\ out = <<>>
+NoOpt == [color |-> FALSE, verb |-> 0]
+Init == /\ phase = "idle" /\ runIgn = FALSE /\ opt = NoOpt /\ grp = NoGroup /\ tst = NoTest /\ out = <<>>
         /\ scan = [stack |-> <<>>, ok |-> TRUE]
         /\ cnt = [g |-> 0, t |-> 0, f |-> 0, p |-> 0]
 
-\* TestResult::testsStarted -> printTestsStarted (the run-ignored switch is fixed before the run)
-TestsStarted(ri) ==
-    /\ phase = "idle" /\ phase' = "run" /\ runIgn' = ri
+\* TestResult::testsStarted -> printTestsStarted (the run-ignored switch and the reporter's colour / verbosity options are
+\* fixed before the run)
+TestsStarted(ri, o) ==
+    /\ phase = "idle" /\ phase' = "run" /\ runIgn' = ri /\ opt' = o
     /\ Silent /\ UNCHANGED <<grp, tst, cnt>>
 
 \* first test of a group (whether it will run or not) -> printCurrentGroupStarted.
@@ -121,10 +128,10 @@ GroupStarted(g) ==
     /\ phase = "run" /\ phase' = "group" /\ g # grp /\ grp' = g
     /\ Emit(<<Msg("testSuiteStarted", [name |-> g])>>)
     /\ cnt' = [cnt EXCEPT !.g = @ + 1, !.t = 0]
-    /\ UNCHANGED <<runIgn, tst>>
+    /\ UNCHANGED <<runIgn, opt, tst>>
 
 \* a test rejected by the filters: counted by the registry, the reporter hears nothing
-Skip == phase = "group" /\ cnt' = [cnt EXCEPT !.t = @ + 1] /\ Silent /\ UNCHANGED <<phase, runIgn, grp, tst>>
+Skip == phase = "group" /\ cnt' = [cnt EXCEPT !.t = @ + 1] /\ Silent /\ UNCHANGED <<phase, runIgn, opt, grp, tst>>
 
 \* printCurrentTestStarted; kind "i" = IGNORE_TEST, which is flagged unless run-ignored mode is on
 TestStarted(n, file, line, kind) ==
@@ -133,10 +140,10 @@ TestStarted(n, file, line, kind) ==
          /\ tst' = [name |-> n, file |-> file, line |-> line, ign |-> ign]
          /\ Emit(<<MsgI("testStarted", [name |-> n], ign)>> \o (IF ign THEN <<Msg("testIgnored", [name |-> n])>> ELSE <<>>))
     /\ cnt' = [cnt EXCEPT !.t = @ + 1, !.f = 0, !.p = 0]
-    /\ UNCHANGED <<runIgn, grp>>
+    /\ UNCHANGED <<runIgn, opt, grp>>
 
 \* UT_PRINT inside a test: free text between messages
-PrintText(txt) == phase = "test" /\ ~tst.ign /\ cnt' = [cnt EXCEPT !.p = @ + 1] /\ Silent /\ UNCHANGED <<phase, runIgn, grp, tst>>
+PrintText(txt) == phase = "test" /\ ~tst.ign /\ cnt' = [cnt EXCEPT !.p = @ + 1] /\ Silent /\ UNCHANGED <<phase, runIgn, opt, grp, tst>>
 
 \* TestResult::addFailure -> printFailure, for a failure of the open test
 Failure(file, line, msg) ==
@@ -144,25 +151,25 @@ Failure(file, line, msg) ==
     /\ LET f == [file |-> file, line |-> line] IN
        Emit(<<Msg("testFailed", [name |-> tst.name, message |-> Location(tst, f), details |-> msg])>>)
     /\ cnt' = [cnt EXCEPT !.f = @ + 1]
-    /\ UNCHANGED <<phase, runIgn, grp, tst>>
+    /\ UNCHANGED <<phase, runIgn, opt, grp, tst>>
 
 \* printCurrentTestEnded (the duration attribute carries a number of milliseconds; not modelled)
 TestEnded ==
     /\ phase = "test" /\ phase' = "group"
     /\ Emit(<<Msg("testFinished", [name |-> tst.name])>>)
     /\ tst' = NoTest
-    /\ UNCHANGED <<runIgn, grp, cnt>>
+    /\ UNCHANGED <<runIgn, opt, grp, cnt>>
 
 \* last test of the group passed by -> printCurrentGroupEnded
 GroupEnded ==
     /\ phase = "group" /\ phase' = "run" /\ cnt.t > 0          \* a group has at least one test (run or filtered out)
     /\ Emit(<<Msg("testSuiteFinished", [name |-> grp])>>)
-    /\ UNCHANGED <<runIgn, grp, tst, cnt>>
+    /\ UNCHANGED <<runIgn, opt, grp, tst, cnt>>
 
 \* printTestsEnded: the console summary, free text
-TestsEnded == phase = "run" /\ phase' = "done" /\ Silent /\ UNCHANGED <<runIgn, grp, tst, cnt>>
+TestsEnded == phase = "run" /\ phase' = "done" /\ Silent /\ UNCHANGED <<runIgn, opt, grp, tst, cnt>>
 
-Next == \/ \E ri \in BOOLEAN : TestsStarted(ri)
+Next == \/ \E ri \in BOOLEAN, o \in Opts : TestsStarted(ri, o)
         \/ \E g \in Names : cnt.g < MaxGroups /\ GroupStarted(g)
         \/ \E n \in Names, f \in Files, l \in LineNos, k \in {"n", "i"} : cnt.t < MaxTests /\ TestStarted(n, f, l, k)
         \/ cnt.t < MaxTests /\ Skip
